@@ -16,6 +16,8 @@
        tests (not) and parenthesised test lists (anyof / allof), nested to any depth; blocks nested to
        any depth; elsif / else only after the commands they must follow -- is accepted, with any layout
        (C01_script_complete, C01_parse_script, C01_layout_insensitive);
+     - for ALL inputs: comments, white space and line endings do not influence the verdict
+       (C01_comment_insensitive, sieve/CommentFacts.v);
      - parse_total (props/C02.v): every other outcome is a SieveParseError, never a crash or a hang.
    The converse (soundness of acceptance with respect to the RFC 5228 generic grammar) is NOT proved in
    general: the structural theorem C01_accept_final_state is, and the executable oracle
@@ -27,7 +29,7 @@ From Coq Require Import List NArith Bool Arith.
 From SV Require Import Bytes Lexer Tables ArgCheck ArgSpec Machine Printer GenTables.
 Import ListNotations.
 Local Open Scope nat_scope.
-From SV Require Import ArgCheckFacts GateFacts PositionFacts TotalFacts CompleteFacts CompleteTree CompleteExamples.
+From SV Require Import ArgCheckFacts GateFacts PositionFacts TotalFacts CompleteFacts CompleteTree CompleteExamples CommentFacts.
 
 (* feeding an argument sequence to check_next_arg: complete / incomplete / rejected exactly as the specification says, with the same recorded values *)
 Theorem C01_argcheck_correct :
@@ -175,6 +177,23 @@ Theorem C01_layout_insensitive :
   same_outcome (parse T text1) (parse T text2).
 Proof. exact CompleteFacts.layout_insensitive. Qed.
 Print Assumptions C01_layout_insensitive.
+
+(* for ALL texts: removing / adding / changing hash and bracket comments anywhere (and white space, positions) changes neither the verdict nor the error category nor the tree, except for the comments recorded on top-level commands *)
+Theorem C01_comment_insensitive :
+  forall (T : tables) (text1 text2 : bytes),
+  twf_tables T = true ->
+  map strip_pos (decomment (fst (lex text1))) = map strip_pos (decomment (fst (lex text2))) ->
+  snd (lex text1) = None <-> snd (lex text2) = None ->
+  outcome_eqc (parse T text1) (parse T text2).
+Proof. exact CommentFacts.comment_insensitive. Qed.
+Print Assumptions C01_comment_insensitive.
+
+(* every transition of the machine commutes with forgetting the pending and the recorded comments *)
+Theorem C01_transitions_ignore_comments :
+  forall (T : tables) (t : token),
+  t_kind t <> THashComment -> commutes (fun st : pstate => process T st t).
+Proof. exact CommentFacts.process_commutes. Qed.
+Print Assumptions C01_transitions_ignore_comments.
 
 (* non-vacuity on the tables generated from /repo: a script with require, if/elsif/else, anyof, not, nested blocks, tags, numbers and lists is derivable, and its tree is what parse returns *)
 Theorem C01_script_example :
